@@ -11,6 +11,8 @@ pub mod gateway;
 pub mod hwstats;
 pub mod launcher;
 pub mod program;
+#[cfg(feature = "verif")]
+pub mod verif;
 
 pub use crate::internal::common::WrappedRcRefCell;
 pub use crate::internal::common::index::{AsIdVec, ItemId};
